@@ -13,6 +13,7 @@ class FakeSerial:
         self.is_open = False
         self._dtr = None
         self.rxq = []
+        self.quiet_reads = 0     # timed-out reads since the last delivery (observation only)
         self.broken = False
         self.env = ENV
         self.k = ENV["k"]
@@ -45,6 +46,7 @@ class FakeSerial:
     def deliver(self, data):
         if self.is_open and not self.broken:
             self.rxq.append(data)
+            self.quiet_reads = 0
             return True
         return False
 
@@ -64,6 +66,7 @@ class FakeSerial:
         if self.rxq:
             return self.rxq.pop(0)
         k.probe("serial.read_timeout")
+        self.quiet_reads += 1
         return b""
 
     def write(self, data):
